@@ -23,8 +23,8 @@ Three adapters share the module:
   MDCPDP      one depot, or several depots in the "env" layout with equal capacities
   MDCPDPGen   several depots in the generator's own layout (capacity [B,1])
   MDCPDPHet   several depots, "env" layout, different capacities per vehicle
-(the last two are separate because there the MODEL already violates C01 / C05 and TLC stops at the
-first model-level violation, which would truncate the solution sets of the healthy configurations).
+(the last two carry their own `name`, so that the C01 / C05 violations they produce form their own
+violation classes and do not hide anything in the configurations whose masks are healthy).
 """
 import torch
 from tensordict import TensorDict
@@ -68,10 +68,13 @@ class MDCPDP(Adapter):
     pad_steps = 2
     properties = ("C01", "C02", "C03", "C04", "C05")
     flavour = "main"
-    # Solo C03 (model reward = objective) is left out: the model transcribes what the code reports,
-    # and that differs from the objective for closed routes / several used vehicles (findings); TLC
-    # would stop at the first such state.  The C03 verdict comes from the real executions.
-    solo_invariants = ("FamilyOK", "C01", "C02a", "C02c", "PadStays", "Emit")
+    # NOTE the Solo MODEL itself fails invariant C03 wherever the code's reward is not the objective
+    # (closed routes, several used vehicles ...): reported by the pipeline as a model-invariant note
+    # next to the real-code C03 verdicts.
+
+    def violation_class(self, inst, monitor):
+        return "nd%d/%s/%s/%s/%s" % (inst["nd"], inst["capfmt"], "open" if inst["open"] else "close",
+                                     inst["rmode"], inst["exec"])
 
     # ---- instances -------------------------------------------------------
     def shapes(self, tier):
@@ -79,7 +82,7 @@ class MDCPDP(Adapter):
         if tier == "quick":
             return [(1, 2, [[1], [2]], "gen"), (2, 1, [[1, 1]], "env"), (2, 2, [[1, 1], [2, 2]], "env")]
         return [(1, 1, [[1]], "gen"), (1, 2, [[1], [2], [3]], "gen"),
-                (2, 1, [[1, 1], [2, 2]], "env"), (2, 2, [[1, 1], [2, 2]], "env")]
+                (2, 1, [[1, 1], [2, 2]], "env"), (2, 2, [[1, 1], [2, 2]], "env"), (3, 1, [[1, 1, 1]], "env")]
 
     def modes(self, tier, nd, P):
         """(open, rmode, w4, dist, exec)"""
@@ -170,9 +173,8 @@ class MDCPDP(Adapter):
 
 class MDCPDPGen(MDCPDP):
     """several depots handed over in the generator's documented layout capacity [B,1]"""
-    tag = "mdcpdp_gen"
+    name = tag = "mdcpdp_gen"      # own name = own violation classes
     flavour = "gen"
-    solo_invariants = ("FamilyOK", "C02a", "C02c", "PadStays", "Emit")
 
     def shapes(self, tier):
         if tier == "quick":
@@ -185,9 +187,8 @@ class MDCPDPGen(MDCPDP):
 
 class MDCPDPHet(MDCPDP):
     """several depots, capacity [B,nd] with different capacities per vehicle"""
-    tag = "mdcpdp_het"
+    name = tag = "mdcpdp_het"
     flavour = "het"
-    solo_invariants = ("FamilyOK", "C02a", "C02c", "PadStays", "Emit")
 
     def shapes(self, tier):
         return [(2, 2, [[1, 2], [2, 1]], "env")]
